@@ -167,7 +167,8 @@ def run(ctx):
     # corpus
     impl_only = []
     for name, prog, refs, big in G.file_cases(tier, env):
-        for fl in ([F["DONT_VALIDATE_SIGNATURE"], env.mempool_mode | F["DONT_VALIDATE_SIGNATURE"]] if tier == "quick" or len(prog) > 100000
+        for fl in ([F["DONT_VALIDATE_SIGNATURE"], env.mempool_mode | F["DONT_VALIDATE_SIGNATURE"]]
+                   if tier == "quick" or len(prog) > 100000 or name not in G.QUICK_FILES      # expensive programs: two flag sets
                    else [F["DONT_VALIDATE_SIGNATURE"], env.mempool_mode | F["DONT_VALIDATE_SIGNATURE"],
                          F["DONT_VALIDATE_SIGNATURE"] | F["COST_CONDITIONS"], F["DONT_VALIDATE_SIGNATURE"] | F["SIMPLE_GENERATOR"],
                          F["DONT_VALIDATE_SIGNATURE"] | F["INTERNED_GENERATOR"] | F["COST_CONDITIONS"]]):
